@@ -239,11 +239,14 @@ def universes(draw, lang, max_classes=6, max_params=3):
                 # an earlier parameter mentioned at nesting depth 2: G1<.., G2<.., Q, ..>, ..>
                 q = draw(st.sampled_from(params))
                 inner = ('v', q[0], q[2])
-                for _ in range(2):
+                for level in range(2):
                     g = draw(st.sampled_from(u.generics()))
                     gp = u.table.cls[g]['params']
                     pos = draw(st.integers(0, len(gp) - 1))
                     fill = draw(st.sampled_from(u.ground_base()))
+                    if level == 1 and gp[pos][1] != 'in' and draw(st.booleans()):
+                        # ... under a use-site projection: G1<out G2<.., Q, ..>>
+                        inner = ('p', 'out', inner)
                     inner = ('i', g, tuple(inner if i == pos else fill for i in range(len(gp))))
                 pb = inner if R.wf(inner) else None
             if pb is not None and (rm.is_proj(pb) or pb == rm.BOT):
